@@ -336,6 +336,50 @@ func BuildBase(name string, cfg Config, seed uint32) (*Base, error) {
 		bb.key("n1", 0x00550001) // new key for bucket 1 (full head: takes an overflow bucket)
 		bb.key("n2", 0x00770000) // second new key for bucket 0
 		return bb.finish([]string{"h0", "b1", "m2", "n0", "n1", "n2"}, []string{"p07", "p19", "q05"})
+	case "MS":
+		// mid-level split pointer AND the next new key splits: level 2, split pointer 1, 5 buckets, 108 keys;
+		// the 109th key splits bucket 1, whose keys with hash&7 == 5 move to the new bucket 5 - behind the
+		// position of a scan that has only drained bucket 0.
+		for i := 0; i < 400 && bb.err == nil; i++ {
+			vi, err := bb.s.DB.VerifIndex()
+			if err != nil {
+				bb.err = err
+				break
+			}
+			if vi.Level == 2 && vi.SplitBucketIdx == 1 && float64(vi.NumKeys+1)/float64(vi.NumBuckets*31) > 0.7 {
+				break
+			}
+			r := fmt.Sprintf("g%03d", i)
+			bb.key(r, uint32(i+1)<<8|uint32(i%8))
+			bb.put(r)
+		}
+		if bb.err != nil {
+			return nil, bb.err
+		}
+		// a key of bucket 1 that moves to bucket 5 at the split, one that stays, one of bucket 0, one of bucket 4
+		var roles []string
+		for r := range bb.s.Keys {
+			roles = append(roles, r)
+		}
+		sort.Strings(roles)
+		for _, r := range roles {
+			k := bb.s.Keys[r]
+			h := hashforge.Sum32(k, seed)
+			switch {
+			case h&7 == 5 && bb.s.Keys["mv"] == nil:
+				bb.s.Keys["mv"] = bb.s.Keys[r]
+			case h&7 == 1 && bb.s.Keys["st"] == nil:
+				bb.s.Keys["st"] = bb.s.Keys[r]
+			case h&7 == 0 && bb.s.Keys["b0"] == nil:
+				bb.s.Keys["b0"] = bb.s.Keys[r]
+			case h&7 == 4 && bb.s.Keys["b4"] == nil:
+				bb.s.Keys["b4"] = bb.s.Keys[r]
+			}
+		}
+		bb.key("n1", 0x00AA0001) // new key for bucket 1 (stays), triggers the split
+		bb.key("n5", 0x00BB0005) // new key that lands in bucket 5 after the split (bucket 1 before)
+		bb.key("n3", 0x00CC0003) // new key for bucket 3
+		return bb.finish([]string{"mv", "st", "b0", "b4", "n1", "n5", "n3"}, []string{"g010", "g050", "g100"})
 	case "SM":
 		// ROLLM (= ROLL with a minimum segment size for compaction of header+60): a full segment of three
 		// puts (578 bytes), a sealed SMALL segment [put a, del d, del e] (570 bytes, below the minimum) and a
@@ -436,13 +480,13 @@ func GetBase(name string, cfg Config, seed uint32) (*Base, error) {
 func (b *Base) NewSess() *Sess {
 	return &Sess{
 		BaseName: b.Name,
-		FS:    b.Image.Clone(),
-		Cfg:   b.Cfg,
-		Model: b.Model.Clone(),
-		Keys:  b.Keys,
-		Probe: b.Probe,
-		Seed:  b.Seed,
-		NVal:  b.NVal,
+		FS:       b.Image.Clone(),
+		Cfg:      b.Cfg,
+		Model:    b.Model.Clone(),
+		Keys:     b.Keys,
+		Probe:    b.Probe,
+		Seed:     b.Seed,
+		NVal:     b.NVal,
 	}
 }
 
